@@ -168,3 +168,9 @@ import pipeline as _pl
 LEAN_MODULES = LEAN_MODULES + [m for m in _pl.LEAN_MODULES2 if m not in LEAN_MODULES]
 THEOREMS = THEOREMS + [t for t in _pl.THEOREMS2.get(ID, []) if t not in THEOREMS]
 GEN = GEN + [g for g in _pl.GEN if g not in GEN]
+
+# ---- the comparison closures TRANSLATED from the source (`intify(operator.lt)` … on numbers, `register_interval_cmp` and
+# `register_quantities_op` closures; Gen/Bodies.lean) are proved equal to the hand-written model bodies (Props/Bodies.lean)
+LEAN_MODULES = LEAN_MODULES + [m for m in _pl.BODIES_MODULES if m not in LEAN_MODULES]
+THEOREMS = THEOREMS + [t for t in _pl.bodies_theorems(("BODIES_lt_", "BODIES_le_", "BODIES_eq_", "BODIES_ne_", "BODIES_gt_", "BODIES_ge_")) if t not in THEOREMS]
+GEN = GEN + [g for g in _pl.BODIES_GEN if g not in GEN]
